@@ -43,9 +43,25 @@ def plan(tier, seed):
                        'ignore_judged': 8000}}
 
 
+def build_multi_missing(rng):
+    """one file holds two modules; the first of them imports (without using it) a module no source has"""
+    first, last = rng.choice([('AA-MIB', 'EE-MIB'), ('EE-MIB', 'AA-MIB')])
+    mods = ['AA-MIB', 'EE-MIB', 'ZZ-MIB', 'BB-MIB']
+    graph = {first: ['ZZ-MIB'], last: rng.choice([[], ['BB-MIB']])}
+    scn = orch.new_scenario(mods, graph, [first])
+    scn['files'][first] = [first, last]
+    scn['sources'][0].pop(last)
+    scn['sources'][0]['ZZ-MIB'] = 'absent'
+    scn['options'] = rng.choice([{}, {'ignoreErrors': True}, {'genTexts': True}])
+    return scn, 'multi_missing'
+
+
 def run_case(idx, rng, tier, res):
     cases = enum()
-    if idx % 2 == 0 and idx // 2 < len(cases):      # phases interleaved: a budget cut trims both alike
+    if idx % 41 == 40:
+        scn, gname = build_multi_missing(rng)
+        res.count('two_module_file_with_a_missing_import')
+    elif idx % 2 == 0 and idx // 2 < len(cases):      # phases interleaved: a budget cut trims both alike
         gname, victim, fi, oi, withb = cases[idx // 2]
         mods, g = orch.GRAPHS[gname]
         requested = [mods[0]] if gname != 'two_roots' else mods[:2]
